@@ -3,6 +3,8 @@
 package dnsforward
 
 import (
+	"syscall"
+	"os/signal"
 	"fmt"
 	"net"
 	"net/http/httptest"
@@ -33,6 +35,12 @@ func TestVerifC02Reload(t *testing.T) {
 	}()
 	vkInitOnce.Do(func() { filtering.InitModule() })
 	rng := rep.Rand("reload")
+	// Without this the kernel kills the process instead of failing the write.
+	signal.Ignore(syscall.SIGXFSZ)
+	fileLimitOK := c02FileLimitWorks()
+	if !fileLimitOK {
+		rep.Event("write_fault_ops_skipped_rlimit_fsize_unusable")
+	}
 	rounds := verifkit.Pick(4, 30)
 	for round := 0; round < rounds; round++ {
 		ls := &c01HistServer{bodies: map[string][]string{}, cut: map[string]bool{}}
@@ -60,6 +68,17 @@ func TestVerifC02Reload(t *testing.T) {
 				tgt := "late-" + strings.TrimPrefix(lbl[:strings.LastIndex(lbl, "-")], "bylate-") + ".bad.reload.test."
 				ans = append(ans, &dns.CNAME{Hdr: dns.RR_Header{Name: q.Name, Rrtype: dns.TypeCNAME, Class: dns.ClassINET, Ttl: 60}, Target: tgt})
 				ans = append(ans, &dns.A{Hdr: dns.RR_Header{Name: tgt, Rrtype: dns.TypeA, Class: dns.ClassINET, Ttl: 60}, A: net.IPv4(198, 18, 7, 8).To4()})
+			} else if strings.HasPrefix(q.Name, "bysmall") {
+				// CNAME to one of 20 names that every version of a small
+				// subscribed list (a file of a few hundred bytes) blocks.
+				tgt := "sperm-" + strings.SplitN(q.Name, "-", 3)[1] + ".listed.reload.test."
+				ans = append(ans, &dns.CNAME{Hdr: dns.RR_Header{Name: q.Name, Rrtype: dns.TypeCNAME, Class: dns.ClassINET, Ttl: 60}, Target: tgt})
+				ans = append(ans, &dns.A{Hdr: dns.RR_Header{Name: tgt, Rrtype: dns.TypeA, Class: dns.ClassINET, Ttl: 60}, A: net.IPv4(198, 18, 7, 10).To4()})
+			} else if strings.HasPrefix(q.Name, "byrestart") {
+				// CNAME to a name that only the list enabled after the restart
+				// blocks.
+				ans = append(ans, &dns.CNAME{Hdr: dns.RR_Header{Name: q.Name, Rrtype: dns.TypeCNAME, Class: dns.ClassINET, Ttl: 60}, Target: "only.latelist.reload.test."})
+				ans = append(ans, &dns.A{Hdr: dns.RR_Header{Name: "only.latelist.reload.test.", Rrtype: dns.TypeA, Class: dns.ClassINET, Ttl: 60}, A: net.IPv4(198, 18, 7, 11).To4()})
 			} else if strings.HasPrefix(q.Name, "bylist") {
 				// CNAME to one of 400 names that every version of the
 				// subscribed list (a file) blocks.
@@ -91,6 +110,15 @@ func TestVerifC02Reload(t *testing.T) {
 
 			return out
 		}
+		small := func(ver int) (out []string) {
+			out = append(out, fmt.Sprintf("||small-version-%d.other.test^", ver))
+			for i := 0; i < 20; i++ {
+				out = append(out, fmt.Sprintf("||sperm-%d.listed.reload.test^", i))
+			}
+
+			return out
+		}
+		ls.set("/small.txt", small(0))
 		ls.set("/bulk.txt", bulk(0))
 		ls.set("/allow.txt", []string{"||unrelated.allow.test^", "||" + okName + "^"})
 		okSetup := true
@@ -101,6 +129,7 @@ func TestVerifC02Reload(t *testing.T) {
 			{"/control/filtering/set_rules", map[string]any{"rules": fixed}},
 			{"/control/filtering/add_url", map[string]any{"name": "bulk", "url": ls.srv.URL + "/bulk.txt", "whitelist": false}},
 			{"/control/filtering/add_url", map[string]any{"name": "allow", "url": ls.srv.URL + "/allow.txt", "whitelist": true}},
+			{"/control/filtering/add_url", map[string]any{"name": "small", "url": ls.srv.URL + "/small.txt", "whitelist": false}},
 		} {
 			if st, b := c01HCall(vs, "POST", c.path, c.body); st != 200 {
 				rep.Inconcl(fmt.Sprintf("setup %s: %d %s", c.path, st, b))
@@ -139,10 +168,12 @@ func TestVerifC02Reload(t *testing.T) {
 			go func(w int) {
 				defer wg.Done()
 				for n := 0; !stop.Load(); n++ {
-					kind := []string{"byname", "bylist", "byaddr", "bylist", "byallowed", "bylist"}[n%6]
+					kind := []string{"byname", "bylist", "byaddr", "bysmall", "byallowed", "bylist"}[n%6]
 					name := fmt.Sprintf("%s-%d-%d-%d.reload.test.", kind, round, w, n)
 					if kind == "bylist" {
 						name = fmt.Sprintf("bylist-%d-%d-%d-%d.reload.test.", (n*7+w*67)%permNum, round, w, n)
+					} else if kind == "bysmall" {
+						name = fmt.Sprintf("bysmall-%d-%d-%d-%d.reload.test.", (n+w)%20, round, w, n)
 					}
 					before := adminBusy.Load()
 					resp, xerr := vkExchange(vs, "127.0.0.1", n%5 == 0, name, dns.TypeA)
@@ -169,7 +200,7 @@ func TestVerifC02Reload(t *testing.T) {
 						continue
 					}
 					if strings.Contains(s, "198.18.7.10") || strings.Contains(s, ".listed.reload.test") {
-						rep.Violate("reload:upstream-record-delivered-while-reconfiguring:bylist",
+						rep.Violate("reload:upstream-record-delivered-while-reconfiguring:"+kind,
 							"an answer revealing a name that every version of the subscribed list blocks was delivered while the filter was being reconfigured",
 							map[string]any{"query": name, "reply": s, "admin_operation_in_flight": ov, "round": round})
 
@@ -188,7 +219,19 @@ func TestVerifC02Reload(t *testing.T) {
 		// them overlapped an operation, within a bound.)
 		for i := 0; i < ops || (overlapped.Load() < 200 && i < ops*6); i++ {
 			adminBusy.Add(1)
-			switch k := rng.Intn(4); k {
+			switch k := rng.Intn(5); k {
+			case 4:
+				// A refresh of the small list (changed content) during which no
+				// file can grow beyond a few bytes (a full disk): the refresh
+				// may fail; what the list blocks must stay blocked.
+				if !fileLimitOK {
+					break
+				}
+				ls.set("/small.txt", small(i+1))
+				_ = c02WithFileLimit(uint64(16+rng.Intn(300)), func() {
+					_, _ = c01HCall(vs, "POST", "/control/filtering/refresh", map[string]any{"whitelist": false})
+				})
+				rep.Class("op:refresh-while-files-cannot-grow")
 			case 0, 1:
 				rules := append([]string{}, fixed...)
 				for j := 0; j < rng.Intn(20); j++ {
@@ -262,6 +305,52 @@ func TestVerifC02Reload(t *testing.T) {
 		}
 		stop.Store(true)
 		wg.Wait()
+		// A list that is in the configuration, switched off, with its file in
+		// place; the program is restarted and the list is switched on again
+		// (same address, same content): its rules must come into force.
+		ls.set("/late.txt", []string{"||only.latelist.reload.test^", "||other.latelist.reload.test^"})
+		script := vs.Up.GetScript()
+		lateURL := ls.srv.URL + "/late.txt"
+		st1, _ := c01HCall(vs, "POST", "/control/filtering/add_url", map[string]any{"name": "late", "url": lateURL, "whitelist": false})
+		st2, _ := c01HCall(vs, "POST", "/control/filtering/set_url", map[string]any{"url": lateURL, "whitelist": false, "data": map[string]any{"name": "late", "url": lateURL, "enabled": false}})
+		if st1 == 200 && st2 == 200 {
+			disk, dir := vs.stopKeep()
+			conf.Dir, conf.Disk = dir, disk
+			nvs, rerr := vkStart(conf)
+			if rerr != nil {
+				_ = os.RemoveAll(dir)
+				ls.srv.Close()
+				rep.Inconcl("restart failed: " + rerr.Error())
+
+				return
+			}
+			nvs.Up.SetScript(script)
+			vs = nvs
+			// Before it is switched on the answer must be delivered.
+			if resp, xerr := vkExchange(vs, "127.0.0.1", false, fmt.Sprintf("byrestart-off-%d.reload.test.", round), dns.TypeA); xerr == nil && resp != nil && strings.Contains(resp.String(), "198.18.7.11") {
+				st3, _ := c01HCall(vs, "POST", "/control/filtering/set_url", map[string]any{"url": lateURL, "whitelist": false, "data": map[string]any{"name": "late", "url": lateURL, "enabled": true}})
+				onOK := false
+				var onReply string
+				for w := 0; w < 400 && st3 == 200 && !onOK; w++ {
+					resp, xerr = vkExchange(vs, "127.0.0.1", false, fmt.Sprintf("byrestart-%d-%d.reload.test.", round, w), dns.TypeA)
+					if xerr == nil && resp != nil {
+						onReply = resp.String()
+						onOK = !strings.Contains(onReply, "198.18.7.11") && !strings.Contains(onReply, "latelist.reload.test")
+					}
+					if !onOK {
+						time.Sleep(15 * time.Millisecond)
+					}
+				}
+				if st3 == 200 {
+					rep.Eval(true, fmt.Sprintf("restart-enable|%d", round))
+					rep.Class("op:list-switched-on-after-a-restart")
+					if !onOK {
+						rep.Violate("reload:list-switched-on-after-restart-not-in-force", "6 s after a list that was in the configuration switched off (file in place) was switched on again after a restart, an answer revealing a name it blocks is still delivered",
+							map[string]any{"round": round, "reply": onReply})
+					}
+				}
+			}
+		}
 		rep.EventN("queries-answered", int(asked.Load()))
 		rep.EventN("queries-overlapping-an-admin-operation", int(overlapped.Load()))
 		if round == 0 {
@@ -273,4 +362,41 @@ func TestVerifC02Reload(t *testing.T) {
 	if rep.EventCount("queries-overlapping-an-admin-operation") < 200 {
 		rep.Inconcl(fmt.Sprintf("too few queries overlapped an admin operation: %d", rep.EventCount("queries-overlapping-an-admin-operation")))
 	}
+}
+
+// c02WithFileLimit runs f while no regular file of this process can grow
+// beyond limit bytes (RLIMIT_FSIZE with SIGXFSZ ignored: write(2) past the
+// limit fails with EFBIG, as it fails with ENOSPC on a full disk).
+func c02WithFileLimit(limit uint64, f func()) (err error) {
+	var old syscall.Rlimit
+	if err = syscall.Getrlimit(syscall.RLIMIT_FSIZE, &old); err != nil {
+		return err
+	}
+	if err = syscall.Setrlimit(syscall.RLIMIT_FSIZE, &syscall.Rlimit{Cur: limit, Max: old.Max}); err != nil {
+		return err
+	}
+	defer func() {
+		if rerr := syscall.Setrlimit(syscall.RLIMIT_FSIZE, &old); rerr != nil && err == nil {
+			err = rerr
+		}
+	}()
+	f()
+
+	return nil
+}
+
+// c02FileLimitWorks reports whether a write beyond the limit fails here.
+func c02FileLimitWorks() (ok bool) {
+	f, err := os.CreateTemp(os.Getenv("VERIF_SCRATCH"), "c02-limit-")
+	if err != nil {
+		return false
+	}
+	defer os.Remove(f.Name())
+	defer f.Close()
+	var werr error
+	if c02WithFileLimit(10, func() { _, werr = f.Write(make([]byte, 100)) }) != nil {
+		return false
+	}
+
+	return werr != nil
 }
